@@ -42,7 +42,7 @@ class DPTSceneNumber(DPTValue1ByteUnsigned):
             if not cls._test_boundaries(knx_value + 1):
                 raise ValueError("Value out of range")
             return DPTArray(knx_value)
-        except (ValueError, OverflowError) as err:
+        except (ValueError, TypeError, OverflowError) as err:
             raise ConversionError(
                 f"Could not serialize {cls.dpt_name()}", value=value
             ) from err
